@@ -10,7 +10,8 @@ Require Import TT.Proofs.C06Strings TT.Proofs.C06Proofs TT.Proofs.C06Main.
 Import ListNotations.
 Local Open Scope list_scope.
 
-(* For every container kind, container attribute list, ASCII identifier and item attribute list of the
+(* For every container kind, container attribute list, ASCII identifier (plain or raw: r#type is named
+   type, as serde does) and item attribute list of the
    domain (rename = any string, skip, any other name or name = any string, in any order, in any number
    of #[serde] attributes) outside the four remaining classes: the emitted keys / literals are exactly
    serde's wire names - an item rename wins, the container rule is the field rule for struct fields
@@ -98,10 +99,11 @@ Definition ex_struct : container :=
                  it0 "first_last_name" [[MOther (L "skip_serializing_if") (Some (L "Option::is_none")); MOther (L "default") None]];
                  it0 "x" [[MOther (L "default") (Some (L "default_x"))]; [MRename (L "full-name")]];
                  it0 "secret" [[MOther (L "default") None; MSkip]];
-                 it0 "_a__b1" [[MRename (L "is it = , ok")]]] |}.
+                 it0 "_a__b1" [[MRename (L "is it = , ok")]];
+                 it0 "r#type_of" [[MOther (L "default") None]]] |}.
 Example C06_ex_struct :
   in_domain ex_struct = true /\ kf_C06 ex_struct = false /\
-  emitted_keys default_field_case ex_struct = [L "userId"; L "firstLastName"; L "full-name"; L "is it = , ok"].
+  emitted_keys default_field_case ex_struct = [L "userId"; L "firstLastName"; L "full-name"; L "is it = , ok"; L "typeOf"].
 Proof. vm_compute. repeat split. Qed.
 Definition ex_enum : container :=
   {| c_kind := KEnum; c_attrs := [[CRenameAll (L "kebab-case")]];
@@ -121,7 +123,7 @@ Example C06_ex_inert :
   same_modulo_others ex_struct
     {| c_kind := KStruct; c_attrs := [[CRenameAll (L "camelCase")]];
        c_items := [it0 "user_id" []; it0 "first_last_name" []; it0 "x" [[MRename (L "full-name")]]; it0 "secret" [[MSkip]];
-                   it0 "_a__b1" [[MRename (L "is it = , ok")]]] |}.
+                   it0 "_a__b1" [[MRename (L "is it = , ok")]]; it0 "r#type_of" []] |}.
 Proof. repeat split. Qed.
 Example C06_ex_rules_agree : ident_ok (L "InProgress") = true /\ rules_differ RCamel (L "InProgress") = false
   /\ rules_differ RScreamingSnake (L "InProgress") = true /\ variant_rule RScreamingSnake (L "InProgress") = L "IN_PROGRESS".
